@@ -37,13 +37,16 @@ enum { VSP_LOAD = 1, VSP_ADD, VSP_SUB, VSP_TAS, VSP_CLEAR, VSP_STORE, VSP_YIELD,
 #define MEMMAGIC 0x600dfeedu
 #define CLRMAGIC 0xdeadc1eau
 
-enum { O_SHARE, O_RESET0, O_RESET1, O_WFROM, O_LOCK, O_WRESET, O_UNIQUE, O_NOPS };
-static const char *opname[] = { "share(S0->S1)", "reset(S0)", "reset(S1)", "weak_from(W,S0)", "lock(W->S1)", "weak_reset(W)", "unique(S0)" };
+enum { O_SHARE, O_RESET0, O_RESET1, O_WFROM, O_LOCK, O_WRESET, O_UNIQUE, O_NOPS, O_DROPX = O_NOPS };
+#define NX 8                    /* extra owners a thread may start with (init bit 2) and drop with one op */
+static const char *opname[] = { "share(S0->S1)", "reset(S0)", "reset(S1)", "weak_from(W,S0)", "lock(W->S1)", "weak_reset(W)", "unique(S0)", "reset(8 extra owners)" };
 
 enum { F_RUNNABLE, F_YIELDED, F_DONE };
 struct tctx {
     cstl_shared_ptr_t S[2];
     cstl_weak_ptr_t W;
+    cstl_shared_ptr_t X[NX];    /* extra owners */
+    int nx;
     int init, nops, ops[MAXOPS];
     int own[2], weak;           /* thread-local facts (model) */
     void *sp;                   /* saved stack pointer while switched out */
@@ -96,10 +99,12 @@ static int abandon;
 static cstl_shared_ptr_t master;
 static void *mem_blk, *book_blk;
 static int clear_count, memfree_count, bookfree_count;
+static int selfweak;            /* scenario: the managed memory embeds a weak pointer to itself (observer pattern) */
+#define EW(mem) ((cstl_weak_ptr_t *)((char *)(mem) + 8))
 static int clear_op, bookfree_op;      /* history index of the op during which it happened, -1 none, -2 outside ops */
 
 /* history */
-struct hop { int thr, op, result, pre_own0, pre_own1, pre_weak; uint64_t call, ret; };
+struct hop { int thr, op, result, pre_own0, pre_own1, pre_weak, pre_nx; uint64_t call, ret; };
 static struct hop Hs[MAXT * MAXOPS];
 static int nH;
 
@@ -152,6 +157,16 @@ static void clr_cb(void *mem, void *priv)
     clear_op = cur != NULL ? cur->curop : -2;
     if (*(uint32_t *)mem != MEMMAGIC) vrt_fail("mt.clear.twice-or-foreign", "clear callback for memory that is not live managed memory");
     *(uint32_t *)mem = CLRMAGIC;
+    if (selfweak) {
+        /* re-entrant use that the library supports: the dying object tries to lock its own weak
+         * reference (must come back empty: no owner exists any more) and then drops it */
+        cstl_shared_ptr_t tmp;
+        cstl_shared_ptr_init(&tmp);
+        cstl_weak_ptr_lock(EW(mem), &tmp);
+        if (cstl_shared_ptr_get(&tmp) != NULL) vrt_fail("mt.lock.owner-from-dying-memory", "a lock taken inside the clear callback produced an owner");
+        cstl_weak_ptr_reset(EW(mem));
+        VRT_COUNT("sched.clear-callbacks.reentrant");
+    }
 }
 static void fail_hook(void)
 {
@@ -183,9 +198,15 @@ static void do_op(struct tctx *t, int op)
     struct hop *h = &Hs[nH];
     t->curop = nH++;
     h->thr = (int)(t - T); h->op = op; h->result = -1;
-    h->pre_own0 = t->own[0]; h->pre_own1 = t->own[1]; h->pre_weak = t->weak;
+    h->pre_own0 = t->own[0]; h->pre_own1 = t->own[1]; h->pre_weak = t->weak; h->pre_nx = t->nx;
     h->call = slice;
     switch (op) {
+    case O_DROPX: {
+        int k;
+        for (k = 0; k < t->nx; k++) cstl_shared_ptr_reset(&t->X[k]);
+        t->nx = 0;
+        break;
+    }
     case O_SHARE:
         if (t->own[1]) check_owner_magic(t, 1, "before-release");
         cstl_shared_ptr_share(&t->S[0], &t->S[1]);
@@ -242,12 +263,12 @@ static void fibre_main(unsigned idx)
  * bookkeeping block, only that it happens exactly once, when the last reference goes */
 enum { P_DROPHARD, P_DROPSOFT, P_ADDHARD, P_ADDSOFT, P_TRYACQ, P_UNIQUE };
 struct prim { int kind, op /* history index */, result; };
-static struct prim P[MAXT * MAXOPS * 4];
+static struct prim P[MAXT * MAXOPS * 4 + MAXT * NX * 2 + 8];
 static int nP;
 static int own0_init, weak0_init;
 static uint64_t lin_nodes;
 #define LIN_BUDGET 400000
-typedef unsigned __int128 pmask;
+typedef unsigned __int128 pmask;       /* up to 128 primitives per history */
 
 static void build_prims(void)
 {
@@ -258,6 +279,7 @@ static void build_prims(void)
     for (i = 0; i < nH; i++) {
         const struct hop *h = &Hs[i];
         switch (h->op) {
+        case O_DROPX: { int k; for (k = 0; k < h->pre_nx; k++) DROPOWNER(); break; }
         case O_SHARE: if (h->pre_own1) DROPOWNER(); if (h->pre_own0) { ADDP(P_ADDHARD, 0); ADDP(P_ADDSOFT, 0); } break;
         case O_RESET0: if (h->pre_own0) DROPOWNER(); break;
         case O_RESET1: if (h->pre_own1) DROPOWNER(); break;
@@ -306,7 +328,12 @@ static int lin_search(pmask done, int hard, int soft, int cleared, int bookfreed
         case P_DROPHARD:
             h--;
             /* the clear callback must have been observed in exactly the op that releases the last owner */
-            if (h == 0) { if (clear_op != P[j].op) continue; c = 1; }
+            if (h == 0) {
+                if (clear_op != P[j].op) continue;
+                c = 1;
+                /* self-weak memory: the callback dropped the embedded weak reference in this very step */
+                if (selfweak) { s--; if (s == 0) { if (bookfree_op != P[j].op) continue; b = 1; } }
+            }
             break;
         case P_DROPSOFT:
             s--;
@@ -330,7 +357,7 @@ static int lin_search(pmask done, int hard, int soft, int cleared, int bookfreed
 }
 
 /* ---------------- one execution ---------------- */
-struct scenario { int nthr; int init[MAXT]; int nops[MAXT]; int ops[MAXT][MAXOPS]; };
+struct scenario { int nthr; int init[MAXT]; int nops[MAXT]; int ops[MAXT][MAXOPS]; int selfweak; };
 
 /* choice source */
 #define MAXD 4096
@@ -382,6 +409,8 @@ static int run_execution(const struct scenario *sc)
     if (mem_blk == NULL || book_blk == NULL) vrt_fail("harness.sched.setup", "allocation failed in setup");
     *(uint32_t *)mem_blk = MEMMAGIC;
     own0_init = weak0_init = 0;
+    selfweak = sc->selfweak;
+    if (selfweak) { cstl_weak_ptr_init(EW(mem_blk)); cstl_weak_ptr_from(EW(mem_blk), &master); weak0_init++; }
     for (i = 0; i < nthr; i++) {
         struct tctx *t = &T[i];
         cstl_shared_ptr_init(&t->S[0]); cstl_shared_ptr_init(&t->S[1]); cstl_weak_ptr_init(&t->W);
@@ -390,6 +419,12 @@ static int run_execution(const struct scenario *sc)
         t->own[0] = t->own[1] = t->weak = 0;
         if (t->init & 1) { cstl_shared_ptr_share(&master, &t->S[0]); t->own[0] = 1; own0_init++; }
         if (t->init & 2) { cstl_weak_ptr_from(&t->W, &master); t->weak = 1; weak0_init++; }
+        t->nx = 0;
+        if (t->init & 4) {
+            int k;
+            for (k = 0; k < NX; k++) { cstl_shared_ptr_init(&t->X[k]); cstl_shared_ptr_share(&master, &t->X[k]); }
+            t->nx = NX; own0_init += NX;
+        }
         t->state = F_RUNNABLE; t->retrying = 0; t->curop = -1; t->fake = NULL;
         if (stacks[i] == NULL) {
             stacks[i] = mmap(NULL, STACKSZ, PROT_READ | PROT_WRITE, MAP_PRIVATE | MAP_ANONYMOUS, -1, 0);
@@ -401,7 +436,7 @@ static int run_execution(const struct scenario *sc)
     }
     /* the master reference goes away before the threads start (may already destroy everything) */
     cstl_shared_ptr_reset(&master);
-    if (own0_init == 0) { clear_op = -2; if (weak0_init == 0) bookfree_op = -2; }
+    if (own0_init == 0) { clear_op = -2; if (selfweak) weak0_init--; if (weak0_init == 0) bookfree_op = -2; }
 
     for (;;) {
         int en[MAXT], n = 0, alive = 0, yielded = 0, pick;
@@ -433,7 +468,8 @@ static int run_execution(const struct scenario *sc)
     {
         const int clear_before = clear_count, book_before = bookfree_count;
         int owners = 0, weaks = 0;
-        for (i = 0; i < nthr; i++) { owners += T[i].own[0] + T[i].own[1]; weaks += T[i].weak; }
+        for (i = 0; i < nthr; i++) { owners += T[i].own[0] + T[i].own[1] + T[i].nx; weaks += T[i].weak; }
+        if (selfweak && clear_before == 0) weaks++;
         if (owners > 0 && clear_before != 0)
             vrt_fail("mt.cleared-while-owner-exists", "clear callback ran %d time(s) although %d owner(s) still exist at the end of the scripts", clear_before, owners);
         if (owners + weaks > 0 && book_before != 0)
@@ -443,6 +479,8 @@ static int run_execution(const struct scenario *sc)
             if (T[i].own[1]) check_owner_magic(&T[i], 1, "at-quiescence");
         }
         for (i = 0; i < nthr; i++) {
+            int k;
+            for (k = 0; k < T[i].nx; k++) cstl_shared_ptr_reset(&T[i].X[k]);
             cstl_shared_ptr_reset(&T[i].S[0]); cstl_shared_ptr_reset(&T[i].S[1]); cstl_weak_ptr_reset(&T[i].W);
         }
         if (clear_count != 1) vrt_fail(clear_count == 0 ? "mt.clear.never" : "mt.clear.more-than-once", "clear callback ran %d times", clear_count);
@@ -487,8 +525,9 @@ static void describe(const struct scenario *sc, char *buf, size_t n)
 {
     size_t k = 0;
     int t, i;
+    if (sc->selfweak) k += snprintf(buf + k, n - k, "[memory embeds a weak pointer to itself; clear callback locks+resets it] ");
     for (t = 0; t < sc->nthr && k + 80 < n; t++) {
-        k += snprintf(buf + k, n - k, "T%d{%s%s:", t, sc->init[t] & 1 ? "owner" : "", sc->init[t] & 2 ? "+weak" : "");
+        k += snprintf(buf + k, n - k, "T%d{%s%s%s:", t, sc->init[t] & 1 ? "owner" : "", sc->init[t] & 2 ? "+weak" : "", sc->init[t] & 4 ? "+8 owners" : "");
         for (i = 0; i < sc->nops[t] && k + 40 < n; i++) k += snprintf(buf + k, n - k, " %s", opname[sc->ops[t][i]]);
         k += snprintf(buf + k, n - k, "} ");
     }
@@ -526,6 +565,16 @@ static const struct scenario selected[] = {
     { 4, { 1, 2, 2, 2 }, { 1, 1, 1, 1 }, { { O_RESET0 }, { O_LOCK }, { O_LOCK }, { O_LOCK } } },
     { 4, { 1, 1, 2, 2 }, { 1, 1, 1, 1 }, { { O_RESET0 }, { O_RESET0 }, { O_LOCK }, { O_WRESET } } },
     { 4, { 2, 2, 2, 2 }, { 1, 1, 1, 1 }, { { O_WRESET }, { O_WRESET }, { O_LOCK }, { O_WRESET } } },
+    /* many owners dropped at once racing a lock (owner counts beyond the handful of the other scenarios) */
+    { 2, { 4, 2 }, { 1, 1 }, { { O_DROPX }, { O_LOCK } } },
+    { 2, { 5, 2 }, { 2, 2 }, { { O_DROPX, O_RESET0 }, { O_LOCK, O_RESET1 } } },
+    { 3, { 4, 1, 2 }, { 1, 1, 1 }, { { O_DROPX }, { O_RESET0 }, { O_LOCK } } },
+    /* self-weak memory: the clear callback re-enters the library */
+    { 2, { 1, 2 }, { 1, 1 }, { { O_RESET0 }, { O_LOCK } }, 1 },
+    { 2, { 1, 1 }, { 1, 1 }, { { O_RESET0 }, { O_RESET0 } }, 1 },
+    { 2, { 3, 2 }, { 2, 2 }, { { O_RESET0, O_WRESET }, { O_LOCK, O_RESET1 } }, 1 },
+    { 3, { 1, 2, 2 }, { 1, 1, 1 }, { { O_RESET0 }, { O_LOCK }, { O_WRESET } }, 1 },
+    { 2, { 4, 2 }, { 1, 1 }, { { O_DROPX }, { O_LOCK } }, 1 },
 };
 #define NSELECTED ((int)(sizeof(selected) / sizeof(selected[0])))
 
@@ -585,6 +634,7 @@ static void run_case(uint64_t idx)
         sc.nthr = 2;
         combo_to_thread((uint64_t)(1 + vrt_below(&g, 3)) * ns + vrt_below(&g, ns), 3, &sc, 0);
         combo_to_thread((uint64_t)vrt_below(&g, 4) * ns + vrt_below(&g, ns), 3, &sc, 1);
+        sc.selfweak = vrt_below(&g, 3) == 0;
         run_dfs_case(&sc, vrt_thorough ? 50000 : 20000, "two-thread-len3-sampled");
         return;
     }
@@ -596,10 +646,12 @@ static void run_case(uint64_t idx)
         int t, i, k, nsched = vrt_thorough ? 400 : 150;
         vrt_rng_seed(&g, vrt_seed, 0xC06900 + idx);
         sc.nthr = 3 + vrt_below(&g, 2);
+        sc.selfweak = vrt_below(&g, 3) == 0;
         for (t = 0; t < sc.nthr; t++) {
             sc.init[t] = t == 0 ? 1 + 2 * vrt_below(&g, 2) : vrt_below(&g, 4);
             sc.nops[t] = 2 + vrt_below(&g, 3);
             for (i = 0; i < sc.nops[t]; i++) sc.ops[t][i] = vrt_below(&g, O_NOPS);
+            if (t == 1 && vrt_below(&g, 4) == 0) { sc.init[t] |= 4; sc.ops[t][vrt_below(&g, sc.nops[t])] = O_DROPX; }
         }
         describe(&sc, d, sizeof(d));
         vrt_case_note("sampled schedules (%d random walks / PCT): %s", nsched, d);
@@ -637,7 +689,7 @@ static void winit(void)
 }
 static const char *const required[] = {
     "sched.executions", "sched.executions.with-context-switch", "lin.histories-linearizable", "sched.spins",
-    "scenarios.two-thread.exhausted", "interleavings.sampled", NULL
+    "scenarios.two-thread.exhausted", "interleavings.sampled", "sched.clear-callbacks.reentrant", NULL
 };
 static const struct vrt_harness H = { "memory_sched", ncases, run_case, winit, NULL, required, 16 };
 int main(int argc, char **argv) { return vrt_main(argc, argv, &H); }
